@@ -191,3 +191,16 @@ PROPS["C16"] = dict(
     level_note="No contract proof for this property; labelled bounded in the evidence.",
     technique="exhaustive bounded contract check of the real HTTPHeaderDict against a reference multimap (stand-in for the planned data-structure invariant proof)",
 )
+
+PROPS["C20"] = dict(
+    contracts=["fields"], bounded=["c20"], level="other", trusted_base=COMMON_TRUSTED,
+    assumptions=["str.translate with a literal table = simultaneous replacement (encoded as a chain of replace_all; checked that no replacement contains a translated character)"],
+    not_decided=["'the escaped value contains no raw quote/CR/LF' as a consequence of the escaping equation (chains of replace_all are undecided by z3 and cvc5): bounded only",
+                 "the layout equation of encode_multipart_formdata / render_headers (loop over fields with a BytesIO): bounded only"],
+    explanation="Two parts. (1) PROVED for all names and values: format_multipart_header_param(name, value) == name + '=\"' + whatwg_escape(value) + '\"' where whatwg_escape percent-encodes exactly LF, CR and the double quote (taken from the statement). "
+                "(2) BOUNDED: encode_multipart_formdata / RequestField parsed back by a strict independent multipart parser: same number and order of parts, exact Content-Disposition parameters (WHATWG-escaped), no extra headers, byte-identical data, "
+                "boundary named by the content type - for every hostile name/filename up to length 2/3 over an 11-symbol alphabet and seeded random field lists.",
+    level_text="Partial proof (the escaping equation) + bounded strict parse-back of the real encoder (complete for names/filenames up to the stated length; not a proof).",
+    level_note="Bounded part labelled bounded.",
+    technique="contract-based deductive verification (string VC, z3) for the escaping rule + bounded strict parse-back of the real multipart encoder",
+)
